@@ -148,10 +148,58 @@ theorem trav_arr (m : Method) (ell : Bool) (val : Json) (part : Bytes) (rest : L
       | none => (.arr xs, .err .badIndex)
       | some i =>
         if i < 0 ∨ i ≥ xs.length then (.arr xs, .err .oob)
-        else match xs[i.toNat]? with
-          | none => (.arr xs, .panic)
-          | some c => inArr i.toNat xs (trav m ell val rest c) :=
+        else match xs[i.toNat]?, rest with
+          | none, _ => (.arr xs, .panic)
+          | some (.arr arr), [idxStr] => inArrayElem i.toNat xs (arrayOp m ell val idxStr arr)
+          | some c, _ => inArr i.toNat xs (trav m ell val rest c) :=
   trav.eq_5 m ell val part rest xs
+
+/-- the ways an array node is entered, as one case split -/
+theorem trav_arr_cases (m : Method) (ell : Bool) (val : Json) (part : Bytes) (rest : List Bytes) (xs : List Json) :
+    (atoi part = none ∧ trav m ell val (part :: rest) (.arr xs) = (.arr xs, .err .badIndex)) ∨
+    (∃ i, atoi part = some i ∧ (i < 0 ∨ i ≥ xs.length) ∧ trav m ell val (part :: rest) (.arr xs) = (.arr xs, .err .oob)) ∨
+    (∃ i c, atoi part = some i ∧ 0 ≤ i ∧ i < xs.length ∧ xs[i.toNat]? = some c ∧
+      ((∃ arr idxStr, c = .arr arr ∧ rest = [idxStr] ∧
+          trav m ell val (part :: rest) (.arr xs) = inArrayElem i.toNat xs (arrayOp m ell val idxStr arr)) ∨
+       ((∀ arr idxStr, c = .arr arr → rest ≠ [idxStr]) ∧
+          trav m ell val (part :: rest) (.arr xs) = inArr i.toNat xs (trav m ell val rest c)))) := by
+  rw [trav_arr]
+  cases ha : atoi part with
+  | none => exact Or.inl ⟨rfl, rfl⟩
+  | some i =>
+    by_cases hoob : i < 0 ∨ i ≥ xs.length
+    · exact Or.inr (Or.inl ⟨i, rfl, hoob, by simp [hoob]⟩)
+    · have hlt : i.toNat < xs.length := by omega
+      obtain ⟨c, hc⟩ : ∃ c, xs[i.toNat]? = some c := ⟨xs[i.toNat], by simp [hlt]⟩
+      refine Or.inr (Or.inr ⟨i, c, rfl, by omega, by omega, hc, ?_⟩)
+      simp only [if_neg hoob, hc]
+      by_cases hs : ∃ arr idxStr, c = .arr arr ∧ rest = [idxStr]
+      · obtain ⟨arr, idxStr, rfl, rfl⟩ := hs
+        exact Or.inl ⟨arr, idxStr, rfl, rfl, rfl⟩
+      · refine Or.inr ⟨fun arr idxStr h1 h2 => hs ⟨arr, idxStr, h1, h2⟩, ?_⟩
+        split
+        · next h => cases h
+        · exfalso; apply hs; simp_all
+        · simp_all
+
+theorem trav_arr_special {m : Method} {ell : Bool} {val : Json} {part idxStr : Bytes} {xs arr : List Json} {i : Int}
+    (ha : atoi part = some i) (h0 : 0 ≤ i) (hlt : i < xs.length) (hx : xs[i.toNat]? = some (.arr arr)) :
+    trav m ell val [part, idxStr] (.arr xs) = inArrayElem i.toNat xs (arrayOp m ell val idxStr arr) := by
+  rcases trav_arr_cases m ell val part [idxStr] xs with ⟨hn, _⟩ | ⟨j, hj, hoob, _⟩ | ⟨j, c, hj, _, _, hc, ⟨arr', idxStr', rfl, hr, heq⟩ | ⟨hns, _⟩⟩
+  · rw [ha] at hn; cases hn
+  · rw [ha] at hj; cases hj; omega
+  · rw [ha] at hj; cases hj; rw [hx] at hc; cases hc; simp at hr; subst hr; exact heq
+  · rw [ha] at hj; cases hj; rw [hx] at hc; cases hc; exact absurd rfl (hns arr idxStr rfl)
+
+theorem trav_arr_in {m : Method} {ell : Bool} {val : Json} {part : Bytes} {rest : List Bytes} {xs : List Json} {i : Int} {c : Json}
+    (ha : atoi part = some i) (h0 : 0 ≤ i) (hlt : i < xs.length) (hx : xs[i.toNat]? = some c)
+    (hns : ∀ arr idxStr, c = .arr arr → rest ≠ [idxStr]) :
+    trav m ell val (part :: rest) (.arr xs) = inArr i.toNat xs (trav m ell val rest c) := by
+  rcases trav_arr_cases m ell val part rest xs with ⟨hn, _⟩ | ⟨j, hj, hoob, _⟩ | ⟨j, c', hj, _, _, hc, ⟨arr', idxStr', rfl, hr, _⟩ | ⟨_, heq⟩⟩
+  · rw [ha] at hn; cases hn
+  · rw [ha] at hj; cases hj; omega
+  · rw [ha] at hj; cases hj; rw [hx] at hc; cases hc; exact absurd hr (hns arr' idxStr' rfl)
+  · rw [ha] at hj; cases hj; rw [hx] at hc; cases hc; exact heq
 
 theorem trav_scalar {m : Method} {ell : Bool} {val : Json} {part : Bytes} {rest : List Bytes} {node : Json}
     (h1 : ∀ kvs, node ≠ .obj kvs) (h2 : ∀ xs, node ≠ .arr xs) :
@@ -219,19 +267,15 @@ theorem trav_notok_pure (m : Method) (ell : Bool) (val : Json) : ∀ (parts : Li
             simp only [hl, inObj] at h ⊢
             rw [ih c h, replaceKey_self hl]
     | arr xs =>
-      rw [trav_arr] at h ⊢
-      cases ha : atoi part with
-      | none => rfl
-      | some i =>
-        simp only [ha] at h ⊢
-        by_cases hi : i < 0 ∨ i ≥ xs.length
-        · rw [if_pos hi]
-        · rw [if_neg hi] at h ⊢
-          cases hx : xs[i.toNat]? with
-          | none => rfl
-          | some c =>
-            simp only [hx, inArr] at h ⊢
-            rw [ih c h, set_self hx]
+      rcases trav_arr_cases m ell val part rest xs with ⟨_, heq⟩ | ⟨i, _, _, heq⟩ | ⟨i, c, ha, h0, hlt, hx, ⟨arr, idxStr, rfl, rfl, heq⟩ | ⟨_, heq⟩⟩
+      · rw [heq]
+      · rw [heq]
+      · rw [heq] at h ⊢
+        simp only [inArrayElem] at h ⊢
+        rw [arrayOp_notok h, set_self hx]
+      · rw [heq] at h ⊢
+        simp only [inArr] at h ⊢
+        rw [ih c h, set_self hx]
     | null => rw [trav_scalar (by simp) (by simp)]
     | bool b => rw [trav_scalar (by simp) (by simp)]
     | num t => rw [trav_scalar (by simp) (by simp)]
@@ -261,17 +305,11 @@ theorem trav_get_pure (ell : Bool) (val : Json) : ∀ (parts : List Bytes) (node
         | none => rfl
         | some c => simp only [inObj]; rw [ih c, replaceKey_self hl]
     | arr xs =>
-      rw [trav_arr]
-      cases ha : atoi part with
-      | none => rfl
-      | some i =>
-        simp only []
-        by_cases hi : i < 0 ∨ i ≥ xs.length
-        · rw [if_pos hi]
-        · rw [if_neg hi]
-          cases hx : xs[i.toNat]? with
-          | none => rfl
-          | some c => simp only [inArr]; rw [ih c, set_self hx]
+      rcases trav_arr_cases .get ell val part rest xs with ⟨_, heq⟩ | ⟨i, _, _, heq⟩ | ⟨i, c, ha, h0, hlt, hx, ⟨arr, idxStr, rfl, rfl, heq⟩ | ⟨_, heq⟩⟩
+      · rw [heq]
+      · rw [heq]
+      · rw [heq]; simp only [inArrayElem]; rw [arrayOp_get_pure, set_self hx]
+      · rw [heq]; simp only [inArr]; rw [ih c, set_self hx]
     | null => rw [trav_scalar (by simp) (by simp)]
     | bool b => rw [trav_scalar (by simp) (by simp)]
     | num t => rw [trav_scalar (by simp) (by simp)]
@@ -297,19 +335,11 @@ theorem trav_no_panic (m : Method) (ell : Bool) (val : Json) : ∀ (parts : List
           · simp
           · exact ih _
     | arr xs =>
-      rw [trav_arr]
-      split
-      · simp
-      · split
-        · simp
-        · next i _ hi =>
-          split
-          · next hx =>
-            exfalso
-            have : i.toNat < xs.length := by omega
-            simp at hx
-            omega
-          · exact ih _
+      rcases trav_arr_cases m ell val part rest xs with ⟨_, heq⟩ | ⟨i, _, _, heq⟩ | ⟨i, c, ha, h0, hlt, hx, ⟨arr, idxStr, rfl, rfl, heq⟩ | ⟨_, heq⟩⟩
+      · rw [heq]; simp
+      · rw [heq]; simp
+      · rw [heq]; exact arrayOp_no_panic m ell val idxStr arr
+      · rw [heq]; exact ih _
     | null => rw [trav_scalar (by simp) (by simp)]; simp
     | bool b => rw [trav_scalar (by simp) (by simp)]; simp
     | num t => rw [trav_scalar (by simp) (by simp)]; simp
